@@ -3,6 +3,7 @@
 package c09
 
 import (
+	"math"
 	"bytes"
 	"encoding/base64"
 	"encoding/binary"
@@ -99,6 +100,9 @@ var targets = map[string]target{
 	"container.FromCar":      {"bytes", func(cs Case) { container.FromCar(cs.Bytes) }, func(cs Case) bool { return isCAR(cs.Bytes) }},
 	"container.FromCarBase64": {"bytes", func(cs Case) { container.FromCarBase64(cs.Bytes) }, func(cs Case) bool { return isCAR(unb64(cs.Bytes)) }},
 	"container.FromCarReader": {"bytes", func(cs Case) { container.FromCarReader(bytes.NewReader(cs.Bytes)) }, func(cs Case) bool { return isCAR(cs.Bytes) }},
+	"container.FromCarBase64Reader":  {"bytes", func(cs Case) { container.FromCarBase64Reader(bytes.NewReader(cs.Bytes)) }, func(cs Case) bool { return isCAR(unb64(cs.Bytes)) }},
+	"container.FromCborReader":       {"bytes", func(cs Case) { container.FromCborReader(bytes.NewReader(cs.Bytes)) }, func(cs Case) bool { return isCBOR(cs.Bytes) }},
+	"container.FromCborBase64Reader": {"bytes", func(cs Case) { container.FromCborBase64Reader(bytes.NewReader(cs.Bytes)) }, func(cs Case) bool { return isCBOR(unb64(cs.Bytes)) }},
 	"policy.FromDagJson":     {"string", func(cs Case) { policy.FromDagJson(cs.Str) }, func(cs Case) bool { return isJSON([]byte(cs.Str)) }},
 	"selector.Parse":         {"string", func(cs Case) { selector.Parse(cs.Str) }, func(cs Case) bool { _, err := selector.Parse(cs.Str); return err == nil }},
 	"command.Parse":          {"string", func(cs Case) { command.Parse(cs.Str); command.IsValid(cs.Str) }, func(cs Case) bool { return strings.HasPrefix(cs.Str, "/") }},
@@ -594,11 +598,11 @@ func targetsFor(art string) []string {
 	case art == "car":
 		return []string{"container.FromCar", "container.FromCarReader"}
 	case art == "carb64":
-		return []string{"container.FromCarBase64"}
+		return []string{"container.FromCarBase64", "container.FromCarBase64Reader"}
 	case art == "cbor":
-		return []string{"container.FromCbor"}
+		return []string{"container.FromCbor", "container.FromCborReader"}
 	}
-	return []string{"container.FromCborBase64"}
+	return []string{"container.FromCborBase64", "container.FromCborBase64Reader"}
 }
 
 var artNames = []string{"sealed-dlg", "sealed-inv", "json-dlg", "json-inv", "car", "carb64", "cbor", "cborb64"}
@@ -926,6 +930,89 @@ func carWith(sections ...[]byte) []byte {
 		out = append(out, s...)
 	}
 	return out
+}
+
+// framingLeaves: one value of every kind and of the shapes a framing field may wrongly take.
+func framingLeaves() []val.V {
+	lk := val.V{K: "link", X: []byte{1}}
+	return []val.V{{K: "null"}, val.Bool(true), val.Bool(false), val.Int(0), val.Int(1), val.Int(2), val.Int(-1), val.Int(1 << 40), val.Uint(1 << 63), val.Uint(^uint64(0)),
+		val.Float(1), val.Float(1.5), val.Float(math.NaN()), val.Float(math.Inf(1)), val.Str(""), val.Str("1"), val.Str("roots"), val.Bytes(nil), val.Bytes([]byte{1, 0x71, 0x12, 0x20}), lk,
+		val.List(), val.List(val.Int(1)), val.List(lk), val.List(lk, lk, lk), val.List(lk, val.Int(1)), val.List(val.List(lk)), val.List(val.Bytes([]byte{1})), val.List(val.V{K: "null"}),
+		val.Map(), val.Map(val.E("roots", val.List(lk))), val.Map(val.E("a", val.Int(1)), val.E("b", lk))}
+}
+
+// TestContainerFraming: the framing of both container formats (the CAR header, the CBOR container's outer map and its
+// list) with EVERY field replaced in turn by a value of every kind, absent, or accompanied by others - all of it
+// well-formed DAG-CBOR, which byte-level mutation of valid containers practically never produces (it yields CBOR
+// errors). Followed by no, one valid, or one invalid section / entry.
+func TestContainerFraming(t *testing.T) {
+	enc := func(v val.V) []byte {
+		b, err := ipld.Encode(v.Node(), dagcbor.Encode)
+		if err != nil {
+			t.Fatalf("harness: %v", err)
+		}
+		return b
+	}
+	// one valid sealed token and its CAR section
+	w := container.NewWriter()
+	sealedTok := artefacts["sealed-dlg"]
+	w.AddSealed(ctr.RefCID(sealedTok), sealedTok)
+	car, _ := w.ToCar()
+	secs, _, err := ctr.CarSections(car)
+	if err != nil || len(secs) < 1 {
+		t.Fatalf("harness: cannot split a CAR: %v", err)
+	}
+	validSection := car[secs[0].Start:secs[0].End]
+	tails := [][]byte{nil, validSection, {0x05, 1, 0x71, 0x12, 0x20}, append(append([]byte{}, validSection...), validSection...)}
+	leaves := framingLeaves()
+	lk := val.V{K: "link", X: []byte{1}}
+	var headers []val.V
+	for _, r := range leaves {
+		headers = append(headers, val.Map(val.E("roots", r), val.E("version", val.Int(1))))
+		headers = append(headers, val.Map(val.E("version", val.Int(1)), val.E("roots", r)))
+		headers = append(headers, val.Map(val.E("roots", r)))
+		headers = append(headers, val.Map(val.E("roots", val.List(lk)), val.E("version", r)))
+		headers = append(headers, val.Map(val.E("roots", val.List(lk)), val.E("version", val.Int(1)), val.E("extra", r)))
+		headers = append(headers, val.Map(val.E("roots", r), val.E("version", r)))
+		headers = append(headers, r) // the header is not a map at all
+	}
+	n := 0
+	carTargets := []string{"container.FromCar", "container.FromCarReader", "container.FromCarBase64", "container.FromCarBase64Reader"}
+	for _, hv := range headers {
+		hb := enc(hv)
+		for _, tail := range tails {
+			b := append(binary.AppendUvarint(nil, uint64(len(hb))), hb...)
+			b = append(b, tail...)
+			for _, tg := range carTargets {
+				in := b
+				if strings.Contains(tg, "Base64") {
+					in = []byte(base64.StdEncoding.EncodeToString(b))
+				}
+				mutatedProp.One(t, Case{Target: tg, Fam: "framing-car-header", Bytes: in})
+				n++
+			}
+		}
+	}
+	// the CBOR container: {"ctn-v1": [bytes...]}
+	var outers []val.V
+	good := val.Bytes(sealedTok)
+	for _, r := range leaves {
+		outers = append(outers, val.Map(val.E("ctn-v1", r)), val.Map(val.E("ctn-v1", val.List(r))), val.Map(val.E("ctn-v1", val.List(good, r))), val.Map(val.E("ctn-v1", val.List(r, good))),
+			val.Map(val.E("ctn-v1", val.List(good)), val.E("x", r)), val.Map(val.E("ctn-v2", r)), val.Map(val.E("", r)), r, val.List(val.Map(val.E("ctn-v1", r))))
+	}
+	cborTargets := []string{"container.FromCbor", "container.FromCborBase64", "container.FromCborReader", "container.FromCborBase64Reader"}
+	for _, ov := range outers {
+		b := enc(ov)
+		for _, tg := range cborTargets {
+			in := b
+			if strings.Contains(tg, "Base64") {
+				in = []byte(base64.StdEncoding.EncodeToString(b))
+			}
+			mutatedProp.One(t, Case{Target: tg, Fam: "framing-cbor-outer", Bytes: in})
+			n++
+		}
+	}
+	P.Sample(map[string]any{"framing_sweep": "CAR header and CBOR container framing fields x value of every kind", "cases": n, "car_targets": carTargets, "cbor_targets": cborTargets})
 }
 
 // TestHostileConstants: fixed hostile inputs through every byte-level entry point.
